@@ -706,6 +706,13 @@ def _case_mda(p, ctx):
             ctx.cls("sub_coupling_structures_given" + ("_two_or_more_cycles" if info["n_scc_ge2"] + info["n_self_coupled"] >= 2 else ""))
         if cfg["kind"] == "gsnewton":
             ctx.cls("gsnewton_settings_as_" + cfg.get("settings_as", "dict"), *(["inexact_discipline_jacobians"] if cfg.get("inexact_jac") else []))
+            nr = cfg["nr"]
+            if cfg["budget"] < BUDGET and (nr.get("acc", "NoTransformation") != "NoTransformation" or float(nr.get("omega", 1.0)) != 1.0):
+                # the small budget of 10 iterations presumes the quadratic convergence of a plain Newton stage; a relaxed or
+                # accelerated Newton stage converges linearly (omega = 0.6: factor 0.4) and gemseo then stops on the budget,
+                # with a warning, before the criterion is met (thorough tier, seed 6): such stages get the full budget
+                cfg = {**cfg, "budget": BUDGET}
+                ctx.cls("gsnewton_transformed_newton_stage_gets_the_full_budget")
         if cfg["kind"] == "sequential" and cfg.get("handoff"):
             ctx.cls("sequential_handoff")
         if cfg["kind"] == "sequential" and cfg.get("first_tol") is not None and cfg["first_tol"] > cfg["tol"]:
